@@ -60,6 +60,16 @@ def name_call(E, n, st, name):
     if name == "next" and n.args and isinstance(n.args[0], ast.GeneratorExp):
         from . import loops
         yield from loops.next_first(E, n, st); return
+    if name in st.loc and isinstance(st.loc[name].ty, RefT) and st.loc[name].ty.cls == "ClassObj":
+        # calling a class object held in a variable: opaque construction (fresh object, no effect on existing objects -- assumed),
+        # which may raise anything
+        for s1, av in evargs(E, n, st):
+            if isinstance(av, Exc): yield s1, av; continue
+            s_ok = s1.copy()
+            yield s_ok, E.alloc(s_ok, RefT("object"), "constructed")
+            s_bad = s1.copy(); s_bad.trace.append("L%d:construct!*" % (n.lineno - E.base_line))
+            yield s_bad, Exc(None, E.alloc(s_bad, RefT("BaseException"), "exc").v, "construction at line %s" % n.lineno)
+        return
     if name in reg.classes and (name + ".__init__") in reg.contracts:
         for s1, av in evargs(E, n, st):
             if isinstance(av, Exc): yield s1, av; continue
@@ -202,6 +212,15 @@ def attr_call(E, n, st):
                 yield s1, SV(res, PATH)
             else:
                 yield s1, E.fresh_sv("str", STR)
+        return
+    # ---- super().m(...): the contract named for it by the current contract (supers={"m": "Base.m"})
+    if isinstance(f.value, ast.Call) and isinstance(f.value.func, ast.Name) and f.value.func.id == "super" and not f.value.args:
+        tgt = (E.cur_contract.supers or {}).get(f.attr)
+        if tgt is None or tgt not in reg.contracts:
+            raise Unsupported("super().%s() has no contract (declare supers={...}) at line %s" % (f.attr, n.lineno))
+        for s1, av in evargs(E, n, st):
+            if isinstance(av, Exc): yield s1, av; continue
+            yield from apply_contract(E, reg.contracts[tgt], st.loc["self"], av[0], av[1], s1, n)
         return
     # ---- receiver is a value
     for s1, recv in E.ev(f.value, st):
